@@ -74,6 +74,17 @@ pub struct AssignmentQualityInfo {
     assigned_course_choice_penalties: Vec<u32>,
 }
 
+#[cfg(feature = "verif")]
+impl AssignmentQualityInfo {
+    /// Verification hook: (number_instructors, assigned_course_choice_penalties)
+    pub fn verif_dump(&self) -> (usize, Vec<u32>) {
+        (
+            self.number_instructors,
+            self.assigned_course_choice_penalties.clone(),
+        )
+    }
+}
+
 impl AssignmentQualityInfo {
     pub fn new(number_instructors: usize, assigned_course_choice_penalties: Vec<u32>) -> Self {
         Self {
